@@ -14,6 +14,7 @@ RULE = ('the C01 byte space (every opcode cell x 256 ModRM x SIB/filler classes;
         'destinations are registers or memory cells, sources are value expressions typed by irsem.typecheck (equal operand widths for + - * & | ^ ==, '
         'slices inside operands, compose slots tiling), source width = destination width (a 1-bit flag may receive a wider source whose value is 0/1 on '
         '32 valuations), no two assignments write the same register or overlapping memory. A case = the byte string; non-trivial = it was lifted and checked.')
+RULE += ' Round 6: address-rule keys carry the operand size (a32+o16, a16+o16).'
 ASSUMPTIONS = ['irsem.typecheck encodes the typing rules of the statement', '0/1-valuedness of flag sources is decided on 32 valuations (uninterpreted operators get the benefit of the doubt)']
 
 
@@ -184,6 +185,7 @@ def shards(tier, seed):
     cl2 = x86space.cells((2, 3))
     out += [('cells', 1, i, 32) for i in range(0, len(cl2), 32)]
     out += [('prefixes', 0, i, 32) for i in range(0, len(cl), 32)]
+    out += [('counts', 0, 0, 0)]
     return out
 
 
@@ -192,7 +194,9 @@ def run_shard(shard, tier, seed):
     kind, which, i, per = shard
     cl = (x86space.cells((0, 1)) if which == 0 else x86space.cells((2, 3)))[i:i + per]
     items = []
-    if kind == 'cells':
+    if kind == 'counts':
+        items = list(x86space.count_grid(tier))
+    elif kind == 'cells':
         for cell in cl:
             for b, cls in x86space.strings_for_cell(cell, tier, seed, prefixes=x86space.STD_PREFIXES,
                                                     sibs=x86space.SIB_QUICK[:3] if tier == 'quick' else x86space.SIB_QUICK + x86space.SIB_ALL64[::7],
